@@ -1,6 +1,7 @@
 import TdVerif.Sexp
 import TdVerif.Model.C19Vmap
 import TdVerif.Model.C19Ops
+import TdVerif.Model.C19Lazy
 
 namespace TdVerif.Drive
 open TdVerif Sexp TdVerif.C19
@@ -103,6 +104,47 @@ def handleC19 (cmd : String) (args : List Sexp) : Option Sexp :=
       match C19D.compile 1 ops (td.batch.eraseIdx i) with
       | .error e => pure (.list [.atom "err", .atom e])
       | .ok (tops, _) => pure (C19D.tdToSexp (stackTD ((unbindTD td i).map (runProg tops)) o))
+  | "c19.vmap2", [ta, tb, i1, i2, o, .list (.atom "prog" :: ops)] => do
+      -- two arguments, in_dims (i1, i2) each an integer or `none`; f(a, b) = prog(a.apply(add, b))
+      let ta ← C19D.tdOf? ta
+      let tb ← C19D.tdOf? tb
+      let i1 ← asOptInt? i1
+      let i2 ← asOptInt? i2
+      let o ← asInt? o
+      let ops ← ops.mapM C19D.opOf?
+      let norm := fun (i : Option Int) (td : TD) => match i with
+        | none => some (none : Option Nat)
+        | some d => if d < -(td.batch.length : Int) || d ≥ (td.batch.length : Int) then none else some (some (normInDim d td.batch.length))
+      match norm i1 ta, norm i2 tb with
+      | some j1, some j2 =>
+        let size := match j1, j2 with
+          | some j, _ => ta.batch.getD j 0
+          | none, some j => tb.batch.getD j 0
+          | none, none => 0
+        let pb := (selOpt ta j1 0).batch
+        match C19D.compile 1 ops pb with
+        | .error e => pure (.list [.atom "err", .atom e])
+        | .ok (tops, bout) =>
+          let rout := bout.length
+          if size = 0 || o < -((rout : Int) + 1) || o > (rout : Int) then pure (.list [.atom "err", .atom "out_dim"]) else
+          pure (C19D.tdToSexp (vmapTD2 opAdd2 tops j1 j2 (normOutDim o rout) size 1 ta tb))
+      | _, _ => pure (.list [.atom "err", .atom "in_dim"])
+  | "c19.vmap_lazy", [td, sd, i, o, .list (.atom "prog" :: ops)] => do
+      -- the lazy-stack code path: the tensordict is stacked lazily along `sd`; only member-wise (element-wise) programs
+      let td ← C19D.tdOf? td
+      let sd ← asNat? sd
+      let i ← asInt? i
+      let o ← asInt? o
+      let ops ← ops.mapM C19D.opOf?
+      let r := td.batch.length
+      if i < -(r : Int) || i ≥ (r : Int) then pure (.list [.atom "err", .atom "in_dim"]) else
+      if o < -(r : Int) || o > ((r : Int) - 1) then pure (.list [.atom "err", .atom "out_dim"]) else
+      let tops := ops.filterMap (fun n => match n with
+        | .mul2 | .add1 | .neg | .clone => n.simpleOp
+        | _ => none)
+      if tops.length ≠ ops.length then pure (.list [.atom "err", .atom "op"]) else
+      let res := vmapLazyI tops (normInDim i r) o 1 (LTD.ofDense td sd)
+      pure (C19D.tdToSexp res.dense)
   | "c19.leaf", [.list (.atom "shape" :: s), i, o] => do
       -- the functorch primitive on a plain tensor: wrap at i, unwrap at o
       let s ← nats? s
@@ -110,6 +152,22 @@ def handleC19 (cmd : String) (args : List Sexp) : Option Sexp :=
       let o ← asNat? o
       let t := removeBDLeaf o (addBDLeaf i (arangeT 0 s))
       pure (.list [ofNats t.shape, ofInts t.toList])
+  | "c19.memo", (.atom locked :: reqs) => do
+      -- a sequence of `_add_batch_dim(in_dim, vmap_level)` requests on one tensordict: for each request the index of the
+      -- first request that returned the same object (the memo only exists on a locked tensordict)
+      let reqs ← reqs.mapM (fun r => match r with
+        | .list [i, l] => do pure ((← asNat? i), (← asNat? l))
+        | _ => none)
+      let step := fun (acc : Memo × List (Wrapper × Nat) × List Nat × Nat) (r : Nat × Nat) =>
+        let (m, seen, out, n) := acc
+        if locked = "true" then
+          let (m', w) := addBDMemo m r.1 r.2
+          match seen.lookup w with
+          | some j => (m', seen, out ++ [j], n + 1)
+          | none => (m', (w, n) :: seen, out ++ [n], n + 1)
+        else (m, seen, out ++ [n], n + 1)
+      let (_, _, out, _) := reqs.foldl step (([] : Memo), ([] : List (Wrapper × Nat)), ([] : List Nat), 0)
+      pure (ofNats out)
   | "c19.norm", [d, r] => do
       let d ← asInt? d
       let r ← asNat? r
